@@ -181,8 +181,10 @@ CHECKS = {
         "(oob_exactly_once_in_order), replies and results are delivered (oob_reply, result_delivered), the monitor is idle "
         "after every entry point returns or raises incl. close of the relay generator (idle_after_*), re-entrant use is "
         "refused leaving the whole system state unchanged (reentry_refused), oob while closing is RuntimeError. Nested "
-        "monitors are proved per view (inner/outer); the single end-to-end statement for arbitrary nesting depth is not "
-        "proved (partial). Correspondence: generated bodies driven raw, inside a Task and by await_sync, Monitor.state after "
+        "monitors: the single end-to-end statement for any nesting depth (nested_monitors, nested_monitors_resume, "
+        "nested_monitors_tower) is proved with no hypothesis about GeneratorExit on the repaired relay (fix e5acd69: oob yields "
+        "a request addressed to its monitor); the pre-repair defect is kept as a decide'd witness on a frozen copy of the old "
+        "model (stale_oob_after_close). Correspondence: generated bodies driven raw, inside a Task and by await_sync, Monitor.state after "
         "every call.",
    note="Trusted: Lean kernel + standard axioms; Proto envelope modelled; PEP-380 delivery of GeneratorExit through nested "
         "frames modelled in MonProg (generators avoid nested frames that swallow a closing GeneratorExit).",
@@ -256,14 +258,14 @@ CHECKS = {
         "the three loop configurations with PRNG-chosen environment actions, every event replayed by the Lean kernel; "
         "oracle: the partition identity after every action, from callbacks and from outside the stopped loop.",
    note="Trusted: Lean kernel + standard axioms; asyncio Task.__step/__wakeup/cancel, Future callbacks and call_soon are "
-        "modelled (validated by trace acceptance); tasks await plain futures in recorded traces.",
+        "modelled (validated by trace acceptance); tasks await plain futures, gather() futures and futures whose cancel() is refused in recorded traces.",
    technique="Lean 4 invariant proof over all kernel event sequences + trace acceptance",
    design="6 C09"),
  "C15": dict(
    text="Lean 4 proof on the same kernel model: task_throw on a never-started, blocked or woken-not-run Python task leaves "
         "exactly one step handle carrying the exception, no wake-up registered, _fut_waiter cleared (throw_makes_runnable); "
         "the exception is raised in the target at most once and exactly once unless superseded or refused "
-        "(throw_exactly_once with ghost accounting); refusals change nothing (throw_refused_no_change); the awaited future, "
+        "(throw_exactly_once with ghost accounting); refusals - done, self, and a pending cancellation whether the target is blocked or already woken (fix db5cd3e refuses _must_cancel up front) - change nothing (throw_refused_no_change); the awaited future, "
         "its other callbacks and its later completion are untouched and no kernel error event is reachable "
         "(awaited_untouched, no_kernel_error); await task_interrupt runs the target next (interrupt_runs_next). Tie: trace "
         "acceptance with throws, interrupts, cancels, mutual interruption and races with completion on three loops; oracle: "
